@@ -27,6 +27,7 @@ use crate::types::{
 
 enum CachedLogSafety {
     Uncomputed,
+    InProgress,
     Computed(Option<LogSafety>),
 }
 
@@ -1032,12 +1033,14 @@ impl Context {
     fn type_log_safety_ref(&self, name: &TypeName) -> Option<LogSafety> {
         let ctx = &self.types[name];
 
-        if let CachedLogSafety::Computed(safety) = &*ctx.log_safety.borrow() {
-            return safety.clone();
+        match &*ctx.log_safety.borrow() {
+            CachedLogSafety::Computed(safety) => return safety.clone(),
+            // temporarily treat it as safe in case of recursive type definitions.
+            CachedLogSafety::InProgress => return Some(LogSafety::Safe),
+            CachedLogSafety::Uncomputed => {}
         }
 
-        // temporarily treat it as safe in case of recursive type definitions.
-        *ctx.log_safety.borrow_mut() = CachedLogSafety::Computed(Some(LogSafety::Safe));
+        *ctx.log_safety.borrow_mut() = CachedLogSafety::InProgress;
 
         let safety = match &ctx.def {
             TypeDefinition::Alias(alias) => alias
@@ -1070,7 +1073,19 @@ impl Context {
                 .fold(None, |a, b| self.combine_safety(a, b)),
         };
 
-        *ctx.log_safety.borrow_mut() = CachedLogSafety::Computed(safety.clone());
+        *ctx.log_safety.borrow_mut() = CachedLogSafety::Uncomputed;
+
+        // A safe result may rest on the provisional answer of an enclosing type that is still being computed and may
+        // yet turn out not to be safe, so it is only memoized once no other computation is in progress.
+        let provisional = safety == Some(LogSafety::Safe)
+            && self
+                .types
+                .values()
+                .any(|t| matches!(*t.log_safety.borrow(), CachedLogSafety::InProgress));
+        if !provisional {
+            *ctx.log_safety.borrow_mut() = CachedLogSafety::Computed(safety.clone());
+        }
+
         safety
     }
 
